@@ -184,7 +184,8 @@ def run (ctx):
     ctx.ob('R-ORDER', trun, "the task waits for a wake-up before each drain", all(g.dominates(y, d, exc=False) for y in ylds for d in pops), "Select on the pinger dominates the drain", trun, 'D2')
     for d in pops:
       c = [c for c in q.node_calls(d) if call_name(c) in ('popleft', 'pop')][0]
-      ctx.ob('R-AGREE', trun, "functions are taken from the head (FIFO)", call_name(c) == 'popleft', norm(c), (mod, c), 'D2')
+      head_ = call_name(c) == 'popleft' or (call_name(c) == 'pop' and len(c.args) == 1 and isinstance(c.args[0], ast.Constant) and c.args[0].value == 0)
+      ctx.ob('R-AGREE', trun, "functions are taken from the head (FIFO)", head_, norm(c), (mod, c), 'D2')
   # the dequeued function: element 0 of the popped item, or the first name of a tuple-unpacking pop
   popped = set(); fnames = set()
   for d in pops:
@@ -215,7 +216,16 @@ def run (ctx):
     ctx.ob('R-EFFECT', trun, "each dequeued function is called at most once", iv is not None and iv[1] <= 1, "calls per pop %s" % (iv,), (mod, n.ast), 'D2')
   fs_ = q.find_method(repo, sch, 'fast_schedule', 'C07'); ctx.analysed(fs_)
   g = q.cfg_of(fs_)
-  qn = g.nodes_with_call(lambda c: call_name(c) in ('append', 'appendleft') and '_ready' in norm(c.func.value))
+  def enq_ (c):
+    if call_name(c) in ('append', 'appendleft') and isinstance(c.func, ast.Attribute) and '_ready' in norm(c.func.value): return True
+    if isinstance(c.func, ast.Name):        # a bound method chosen first: enqueue = self._ready.appendleft if first else self._ready.append
+      ds_ = [v_ for v_, st_, k_ in q.reaching_assign(fs_.node, c.func.id)]
+      if ds_ and all(v_ is not None for v_ in ds_):
+        alts_ = []
+        for d_ in ds_: alts_ += [d_.body, d_.orelse] if isinstance(d_, ast.IfExp) else [d_]
+        return all(isinstance(a_, ast.Attribute) and a_.attr in ('append', 'appendleft') and '_ready' in norm(a_.value) for a_ in alts_)
+    return False
+  qn = g.nodes_with_call(enq_)
   bi = g.nodes_with_call(lambda c: call_name(c) == 'break_idle')
   good = bool(qn) and bool(bi) and g.dominates(qn, bi[0]) and g.postdominates(bi, g.entry) and not any(x in g.reachable(bi[0]) for x in qn)
   ctx.ob('R-ORDER', fs_, "a task is put on the ready queue before the scheduler is woken", good, "queue then break_idle on every path" if good else "wake-up before queueing (lost wake-up) or missing wake-up", fs_, 'D2')
@@ -391,8 +401,13 @@ def run (ctx):
   popm = (lambda e: isinstance(e, ast.Call) and call_name(e) in ('pop', 'popleft') and norm(e.func.value) == 'self._waiting')
   def final_states (waiters):
     env = q.Env({'self._waiting': list(waiters), 'self._locked': '<me>'}, [(popm, waiters[0] if waiters else q.OPAQUE)])
+    uses_try = any(isinstance(x_, ast.Try) for x_ in ast.walk(dr.node))
+    if not waiters and uses_try:
+      # "no waiter" found out by trying: the pop on the empty list raises and the handler takes over
+      env = q.Env({'self._waiting': [], 'self._locked': '<me>'})
     out = []
-    for p_, e_ in q.paths_under(repo, mod, g, env, g.entry, [g.exit], lk, limit=100):
+    for p_, e_ in q.paths_under(repo, mod, g, env, g.entry, [g.exit], lk, limit=100, exc=bool(not waiters and uses_try)):
+      if not waiters and uses_try and not any(n.kind == 'handler' for n in p_): continue      # the pop of an empty list does not return
       out.append((e_.exact.get('self._locked', '?'), any(n in sched for n in p_)))
     return out
   fw = final_states(['<t>']); fn_ = final_states([])
